@@ -297,6 +297,39 @@ def judge_pairs(ck, c, ctx, s0, shape, isrec, r, api):
         prev = cur
 
 
+def gen_multivar(thorough):
+    """nonblocking writes to SEVERAL variables posted in every order (the queue is kept sorted by file position, so a request for an earlier
+    variable displaces the pending ones) and completed by one wait_all: every request changes its own variable's addressed elements only"""
+    from engine.script import Script
+    out = []
+    dims = [('t', None), ('x', 4)]
+    vars_ = [('a', D.NC_INT, [1]), ('b', D.NC_INT, [1]), ('c', D.NC_SHORT, [1]), ('r', D.NC_INT, [0, 1]), ('q', D.NC_INT, [0, 1])]
+    REQ = {0: ([1], [2]), 1: ([0], [3]), 2: ([2], [2]), 3: ([0, 1], [2, 2]), 4: ([1, 0], [1, 3])}      # variable -> (start, count); the record-variable requests span 2 / 1 records
+    sets = [(0, 1, 2), (1, 2, 3), (0, 3, 4), (0, 1, 2, 3)] + ([(0, 1, 2, 3, 4), (1, 2, 3, 4)] if thorough else [])
+    for vs in sets:
+        for order in itertools.permutations(vs):
+            if list(order) == sorted(order) and len(vs) > 3: continue
+            for nb in ('i', 'b'):
+                for how in (('ids', 'ALL') if (thorough or len(vs) == 3) else ('ids',)):
+                    s = Script('MV-%s-%s-%s' % (''.join(map(str, order)), nb, how), 1, 2, dims, vars_, hints='nc_header_align_size=4;nc_var_align_size=4;nc_record_align_size=4')
+                    for v in range(3): s.put('*', v, form='var', coll=1, tag=60 + v)
+                    for v in (3, 4): s.put('*', v, [0, 0], [3, 4], None, form='vara', coll=1, tag=60 + v)
+                    s.op('*', 'buffer_attach', size=1024)
+                    posted = []
+                    for k, v in enumerate(order):
+                        st, ct = REQ[v]
+                        ln, idx, vals = s.put('*', v, st, ct, None, form='vara', nb=nb, req=k, tag=10 + k, update=False)
+                        posted.append((v, idx, vals))
+                    if how == 'ids': s.op('*', 'wait', f=0, ids=['q%d' % k for k in range(len(order))], all=1)
+                    else: s.op('*', 'wait', f=0, kind='ALL', all=1)
+                    for v, idx, vals in posted: s.model.put_idx(v, idx, vals)
+                    for v in range(len(vars_)): s.get_all('*', v, coll=1, what='every variable after writes to several variables completed by one wait')
+                    s.op('*', 'buffer_detach')
+                    s.finish()
+                    out.append(s)
+    return out
+
+
 def main(tier=None):
     ck = Check('C15', 'exploration', tier)
     b = build.build('plain')
@@ -352,13 +385,20 @@ def main(tier=None):
         npairs += len(ctx)
         judge_pairs(ck, c, ctx, s0, shape, isrec, r, api)
     nt += npairs
+    # writes to several variables, posted in every order, completed by one wait
+    mv = gen_multivar(thorough)
+    mres = runner.run_cases(b['vx'], [x.case for x in mv], batch=20)
+    for x, r in zip(mv, mres):
+        nt += x.nevals
+        for sig, detail in x.judge(r): ck.violation(sig, x.case.text(), x.case.name + ': ' + detail)
+    ck.cov['multi_variable_orders'] = len(mv)
     ck.cov['request_pairs'] = npairs
     ck.cov['evaluations'] = nt
     ck.cov['distinct_nontrivial'] = nt
     ck.cov['rule'] = ('every (start,count,stride) in {-1..len+1} x {-1..len+1} x {-1,0,1,2,len,len+1} per dimension for shapes (3), (2,3), (U,2) and a reduced grid for (2,2,2) through put/get_vars, and derived tuple sets through '
                       'var1, vara, varm, varn, iput/iget/bput+wait; strict and relaxed coordinate bound; the file is snapshot after every call: rejected, zero-length and read requests may not change a byte, accepted writes '
                       'may change only the bytes of the addressed elements (+ the numrecs field) which must then hold the new values; the blocking forms again with the tuple passed by one process of a 2-3 process collective call while the others pass valid requests; every ordered pair of in-range boxes of a (6), (3,4) and (U,3) variable posted as two iput/bput requests completed by one wait_all '
-                      'or as the two segments of one put_varn / iput_varn (disjoint, adjacent, partially overlapping, nested): only bytes of the union may change, elements of one box hold its value, elements of both hold either')
+                      'or as the two segments of one put_varn / iput_varn (disjoint, adjacent, partially overlapping, nested): only bytes of the union may change, elements of one box hold its value, elements of both hold either; nonblocking writes (iput / bput) to 3-4 (thorough 5) variables posted in every order and completed by one wait_all (by ids / NC_REQ_ALL): every variable is read back, the file reopened and decoded')
     ck.sample(allc[0][0][0].text()[:1500])
     ck.assumptions += ['bytes beyond the previous end of file that a record-appending write does not address are undefined content and not compared', 'where no document orders two applicable codes (NC_ENEGATIVECNT vs NC_EEDGE / NC_ESTRIDE) either is accepted', 'larger shapes and derived buffer types for out-of-range requests are outside the bound (the property\'s random clause is not done)']
     runner.cleanup()
